@@ -558,7 +558,7 @@ def run(ctx):
     strace = record_selectors(ctx, rnd, 12000 if ctx.thorough else 2500, worst)
     gtrace = record_groupby(ctx, rnd, 6000 if ctx.thorough else 1200, gworst)
     sdemo = [{"op": "sel", "ast": r["ast"], "val": vals[j], "res": r["res"][j], "exc": ""}
-             for j, r in enumerate(r2 for r2 in recs[len(recs) // 2:len(recs) // 2 + 40] if "U" not in r2["res"][:8])][:8]
+             for j, r in enumerate([r2 for r2 in recs[len(recs) // 2:len(recs) // 2 + 40] if "U" not in r2["res"][:8]][:8])]
 
     def corrupt_groups(r):
         if len(r["groups"]) < 2:
@@ -568,7 +568,7 @@ def run(ctx):
         return dict(r, groups=[x for x in g if x])
     # the demonstrations use behaviours of the specification itself, so they do not depend on the tree under test
     demo = [{"G": r["G"], "M": r["M"], "ctxs": [it["c"] for it in r["flow"]], "groups": r["groups"]}
-            for r in flrecs if all(it["op"] == "fill" for it in r["flow"])][-60:]
+            for r in flrecs if all(it["op"] == "fill" for it in r["flow"]) and len(r["groups"]) >= 2][-30:]
     def demos():      # (one after the other: core.binding_demo uses one scratch file name)
         ctx.binding_demo("Trace_Selectors", "Trace_Selectors.cfg", sdemo,
                          lambda r: dict(r, res={"T": "F", "F": "T", "E": "F"}[r["res"]]))
